@@ -588,7 +588,11 @@ def gen_program(ctx: Ctx, avail_modules: List[Unit]):
 
 def gen_blockdata(ctx: Ctx):
     rng = ctx.rng
-    bd = Unit("blockdata", ctx.name("bd") if rng.random() < 0.8 else "", doc=ctx.doc())
+    # (a program may hold only one unnamed block data unit)
+    unnamed = rng.random() >= 0.8 and not getattr(ctx, "unnamed_blockdata", False)
+    if unnamed:
+        ctx.unnamed_blockdata = True
+    bd = Unit("blockdata", "" if unnamed else ctx.name("bd"), doc=ctx.doc())
     vs = []
     for _ in range(rng.randint(1, 3)):
         v = Var(ctx.name("v"), TypeSpec(rng.choice(["integer", "real"])))
